@@ -106,6 +106,11 @@ class CFGBuilder:
     def comment(self, text):
         pass
 
+    def alloca(self, typ, size=None, name=""):
+        # an expression/statement emitter runs at the current insertion point - inside loop conditions and bodies;
+        # an alloca there is a dynamic stack allocation executed on every evaluation (the stack grows with the trip count)
+        raise Rejected("alloca at the current insertion point (not in the function's entry block): a stack allocation on every evaluation")
+
     def phi(self, ty, name=""):
         if self.block.events:
             raise Rejected("phi after other instructions of the block")
@@ -404,7 +409,7 @@ def run(report):
             oid = f"{label}:control-flow-graph-implements-the-node"
             if kind != "ok":
                 report.add_obligation(oid, ok_kind, "sat", "pyvc path exploration + automaton equivalence", 0.0, label)
-                report.violation(oid, dict(function=label, what=f"emission {kind}: {b}", how_to_replay="compile a function containing this node with tensora.compile._compile_llvm.compile_module"), False)
+                report.violation(oid, dict(function=label, what=f"emission {kind}: {b}", how_to_replay="compile a function containing this node with tensora.compile._compile_llvm.compile_module (for a stack allocation per evaluation: run a kernel that co-iterates two long compressed vectors)"), False)
                 continue
             r, node = r
             graph = normalise(cfg_automaton(b, r if is_expr else None))
